@@ -657,6 +657,36 @@ pub fn mon_c08_mixture(f: &Flow, m: &mut Mon) {
 }
 
 // ---------------------------------------------------------------------------------------------
+// C09: per-app data is committed together with the check's result (never one without the other)
+
+pub fn mon_c09_together(f: &Flow, m: &mut Mon) {
+    let mut last_apps: Option<Vec<(String, Option<([Option<String>; 3], Option<u32>)>)>> = None;
+    for cm in f.commits.iter().filter(|c| c.ok) {
+        let (failed, lc, _) = decode_book(&cm.snapshot);
+        let candidates: Vec<&(u64, Option<i64>, Option<Vec<AppSnap>>)> = f.model_tuples.iter().filter(|t| t.0 == failed && t.1 == lc).collect();
+        if candidates.is_empty() {
+            continue; // C08's no-mixture rule reports this
+        }
+        let rec = |id: &str| match cm.snapshot.get(id) {
+            Some(Val::S(js)) => decode_persisted_app(js),
+            _ => None,
+        };
+        // the per-app records either match the model state that belongs to this (counter, last contact)
+        // pair, or (pair unchanged since the previous commit) are simply the same as in the previous commit
+        let ok = candidates.iter().any(|t| match &t.2 {
+            None => true,
+            Some(apps) => apps.iter().all(|a| rec(&a.id) == Some((a.cohort.clone(), a.day))),
+        });
+        let cur: Vec<(String, Option<([Option<String>; 3], Option<u32>)>)> = f.model_tuples.iter().filter_map(|t| t.2.as_ref()).flat_map(|a| a.iter().map(|x| x.id.clone())).collect::<BTreeSet<_>>().into_iter().map(|id| { let r = rec(&id); (id, r) }).collect();
+        let unchanged = last_apps.as_ref() == Some(&cur);
+        m.judge("c09-apps-committed-with-result", ok || unchanged && candidates.len() > 1, "", || {
+            format!("commit at seq {} stores (counter {}, last contact {:?}) together with per-app records {:?}, which do not belong to that check result", cm.seq, failed, lc, cur)
+        });
+        last_apps = Some(cur);
+    }
+}
+
+// ---------------------------------------------------------------------------------------------
 // C05: policy consent gates every network, install and reboot action
 
 pub fn mon_c05(log: &[Rec], f: &Flow, setup: &Setup, m: &mut Mon) {
@@ -1076,6 +1106,16 @@ pub fn mon_c11(log: &[Rec], f: &Flow, drained: bool, m: &mut Mon) {
             // with OnDemand at or before the reply's hi bound + the poll it was logged in
             let asked = wv.allowed.iter().any(|(s, od, _)| *od && *s > q.send_seq);
             let rebooted_before = wv.reboot_seq.map(|s| s < q.send_seq).unwrap_or(false);
+            // the request was taken by the reboot-wait loop itself (reply resolved by a poll inside the
+            // wait, before the reboot started): THAT poll must contain an on-demand reboot question
+            let (lo, _) = (q.reply.as_ref().unwrap().1, 0);
+            let in_wait = lo >= wv.start_seq && wv.reboot_seq.map(|r| *hi < r).unwrap_or(*hi <= wv.end_seq);
+            if in_wait {
+                let asked_now = wv.allowed.iter().any(|(s, od, _)| *od && *s > lo && *s <= *hi);
+                m.judge("c11-every-on-demand-request-asks-reboot-question", asked_now, "", || {
+                    format!("on-demand request {} was handled by the reboot wait in the poll [{}..{}] but reboot_allowed was not asked in that poll; questions {:?}", q.req, lo, hi, wv.allowed)
+                });
+            }
             if !rebooted_before {
                 m.judge("c11-on-demand-upgrades-reboot-question", asked, "", || {
                     format!("on-demand request {} was answered AlreadyRunning during the reboot wait (reply in [{}..{}]) but reboot_allowed was never asked with OnDemand afterwards; questions {:?}", q.req, q.send_seq, hi, wv.allowed)
